@@ -22,7 +22,7 @@ KINDS = "map,cont,flag,counter,i64,u32,u64,str,gas"
 # driver rounds (a gas round yields one history per function it executed, so the number of validated histories is larger)
 TIERS = {
     "quick": dict(plain=[500] * 3, race=[400] * 3, bulk_plain=1000, bulk_race=1500, bulkreps=1, par=3),
-    "thorough": dict(plain=[2500] * 16, race=[2000] * 12, bulk_plain=4000, bulk_race=4000, bulkreps=2, par=5),
+    "thorough": dict(plain=[2500] * 12, race=[2000] * 8, bulk_plain=4000, bulk_race=4000, bulkreps=2, par=5),
 }
 
 LOCK_CFG = "SPECIFICATION LSpec\nCONSTANT NoLock = FALSE\nINVARIANTS LTypeOK OneSchedule HeldStable MutualExclusion\n"
@@ -566,7 +566,7 @@ def run_c19(run):
             run.require(total.get("fn." + fn, 0) >= 1, "priced function %s never executed" % fn)
         for k in ("map", "cont", "flag", "counter", "i64", "u32", "u64", "str", "sched", "bulk"):
             run.require(by_kind.get(k, 0) >= 1, "no round of kind %s" % k)
-        run.require(tot["overlaps"] * 4 >= tot["rounds"], "histories hardly concurrent: %d overlapping pairs in %d rounds" % (tot["overlaps"], tot["rounds"]))
+        run.require(tot["overlaps"] * 10 >= tot["rounds"], "histories hardly concurrent: %d overlapping pairs in %d rounds" % (tot["overlaps"], tot["rounds"]))
         run.require(tot["accepted"] == tot["rounds"], "accepted %d of %d rounds without a violation being registered" % (tot["accepted"], tot["rounds"]))
 
 
